@@ -1286,12 +1286,12 @@ class Bits:
 
         new_slice = bitstring.bitstore.offset_slice_indices_lsb0(slice(start, end, None), len(self))
         msb0_start, msb0_end = self._validate_slice(new_slice.start, new_slice.stop)
-        p = self._rfind_msb0(bs, msb0_start, msb0_end, bytealigned)
-
-        if p:
-            return (len(self) - p[0] - len(bs),)
-        else:
-            return ()
+        # Byte alignment refers to the lsb0 position, so it can't be left to the msb0 search.
+        for p in self._bitstore.rfindall_msb0(bs._bitstore, msb0_start, msb0_end, False):
+            lsb0_pos = len(self) - p - len(bs)
+            if not bytealigned or lsb0_pos % 8 == 0:
+                return (lsb0_pos,)
+        return ()
 
     def _find_msb0(self, bs: Bits, start: int, end: int, bytealigned: bool) -> Union[Tuple[int], Tuple[()]]:
         """Find first occurrence of a binary string."""
@@ -1343,29 +1343,16 @@ class Bits:
         new_slice = bitstring.bitstore.offset_slice_indices_lsb0(slice(start, end, None), len(self))
         msb0_start, msb0_end = self._validate_slice(new_slice.start, new_slice.stop)
 
-        # Search chunks starting near the end and then moving back.
+        # A reverse msb0 search gives the matches in increasing lsb0 order.
         c = 0
-        increment = max(8192, len(bs) * 80)
-        buffersize = min(increment + len(bs), msb0_end - msb0_start)
-        pos = max(msb0_start, msb0_end - buffersize)
-        while True:
-            found = list(self._findall_msb0(bs, start=pos, end=pos + buffersize, count=None, bytealigned=False))
-            if not found:
-                if pos == msb0_start:
-                    return
-                pos = max(msb0_start, pos - increment)
+        for p in self._bitstore.rfindall_msb0(bs._bitstore, msb0_start, msb0_end, False):
+            lsb0_pos = len(self) - p - len(bs)
+            if bytealigned and lsb0_pos % 8 != 0:
                 continue
-            while found:
-                if count is not None and c >= count:
-                    return
-                c += 1
-                lsb0_pos = len(self) - found.pop() - len(bs)
-                if not bytealigned or lsb0_pos % 8 == 0:
-                    yield lsb0_pos
-
-            pos = max(msb0_start, pos - increment)
-            if pos == msb0_start:
+            if count is not None and c >= count:
                 return
+            c += 1
+            yield lsb0_pos
 
     def rfind(self, bs: BitsType, /, start: Optional[int] = None, end: Optional[int] = None,
               bytealigned: Optional[bool] = None) -> Union[Tuple[int], Tuple[()]]:
@@ -1406,11 +1393,12 @@ class Bits:
         new_slice = bitstring.bitstore.offset_slice_indices_lsb0(slice(start, end, None), len(self))
         msb0_start, msb0_end = self._validate_slice(new_slice.start, new_slice.stop)
 
-        p = self._find_msb0(bs, msb0_start, msb0_end, bytealigned)
-        if p:
-            return (len(self) - p[0] - len(bs),)
-        else:
-            return ()
+        # Byte alignment refers to the lsb0 position, so it can't be left to the msb0 search.
+        for p in self._bitstore.findall_msb0(bs._bitstore, msb0_start, msb0_end, False):
+            lsb0_pos = len(self) - p - len(bs)
+            if not bytealigned or lsb0_pos % 8 == 0:
+                return (lsb0_pos,)
+        return ()
 
     def cut(self, bits: int, start: Optional[int] = None, end: Optional[int] = None,
             count: Optional[int] = None) -> Iterator[Bits]:
